@@ -26,6 +26,7 @@ func checkC16(c *Ctx) {
 	c.Rule("C16/R8", "digit order: wherever a renderer writes a number digit by digit (footnote marks, spreadsheet column names), digits peeled off least-significant first are stored from the end of the buffer backwards, or the buffer is reversed afterwards")
 	c.Rule("C16/R9", "CSV cell references: a closure of ToCSV that derives a cell reference from the length of the row under assembly is called, inside the column loops, only after the padding closure on every path of the iteration; and no value is appended to the row after a conditionally appended one of the same iteration without a padding call in between")
 	c.Rule("C16/R10", "rows and records stay in step: in the CSV renderers every csv.Writer.Write is followed on every path by an increment of the shared row counter")
+	c.Rule("C16/R13", "every header node's children are queued: in the level-by-level walk of the header tree each path through one iteration passes the append of the node's Children")
 	c.Rule("C16/R12", "absolute placement in the text renderer: inside a loop over the table's columns every path from the start of the iteration to a call that emits a cell passes a Col(...) call computed from that iteration's column index")
 	c.Rule("C16/R11", "a spanning cell gets room: from the test that finds the spanned columns too narrow for the cell, every path to the next cell stores into the widths table — with the work list of columns that may grow tracked as empty / non-empty along the path, so that 'every column under the cell is a shrink column' is a path of its own")
 	c.Rule("C16/R7", "shrink marks stay inside the table built so far: every column index passed to SetShrink is below the layout's current column on the path that reaches the call")
@@ -42,6 +43,7 @@ func checkC16(c *Ctx) {
 	c16CSVRows(c, p)
 	c16SpanFits(c, p)
 	c16Placed(c, p)
+	c16EveryChildQueued(c, p)
 }
 
 // c16CSVRows (C16/R10): warnings name spreadsheet rows, so the row counter and the records written must stay in step: in
@@ -1542,6 +1544,43 @@ func c16GrowsOnEveryPath(fn *ssa.Function, loops []*loopInfo, cells *loopInfo, s
 		}
 	}
 	walk(state{start, unknown, false}, map[*ssa.BasicBlock]int{})
+	// a column put back on the work list gives back the width that was taken off the cell's need for it: a loop that
+	// appends to the list where the list is known to be empty (the fallback) also adds an element of the widths table
+	// to an integer it carries (w += ws[col]); without it only the shortfall is distributed and the cell still overflows
+	if !bad && list != nil {
+		for _, lp := range loops {
+			if lp == cells || !cells.Blocks[lp.Header] {
+				continue
+			}
+			appends, underEmpty, givesBack := false, false, false
+			for b := range lp.Blocks {
+				for _, in := range b.Instrs {
+					if st, ok := in.(*ssa.Store); ok && st.Addr == ssa.Value(list) {
+						if call, ok := st.Val.(*ssa.Call); ok {
+							if bi, ok := call.Call.Value.(*ssa.Builtin); ok && bi.Name() == "append" {
+								appends = true
+							}
+						}
+					}
+					if bo, ok := in.(*ssa.BinOp); ok && bo.Op == token.ADD && isInteger(bo.Type()) {
+						for _, side := range []ssa.Value{bo.X, bo.Y} {
+							if ia, ok := loadAddr(side).(*ssa.IndexAddr); ok && isTable(ia.X) {
+								givesBack = true
+							}
+						}
+					}
+				}
+			}
+			for _, f := range factsAt(lp.Header) {
+				if bo, ok := f.Cond.(*ssa.BinOp); ok && (isLenOfList(bo.X) || isLenOfList(bo.Y)) {
+					underEmpty = true
+				}
+			}
+			if appends && underEmpty && !givesBack {
+				return false, ""
+			}
+		}
+	}
 	if steps > 200000 {
 		return false, "too many paths through the width computation"
 	}
@@ -1698,4 +1737,80 @@ func c16Placed(c *Ctx, p *Prog) {
 		}
 	}
 	c.Floor(R, "cells emitted inside the column loops of the text renderer", n, 4)
+}
+
+// c16EveryChildQueued (C16/R13): the text renderer walks the header tree level by level; every node's children are
+// queued for the next level, whatever the node's own label is — in the loop that visits the nodes of a level, each path
+// through one iteration passes the append of that node's Children. A node skipped because its value is blank takes the
+// header cells of everything beneath it with it, and the text then labels fewer columns than the CSV.
+func c16EveryChildQueued(c *Ctx, p *Prog) {
+	const R = "C16/R13"
+	childrenF := p.Field("benchproc", "KeyHeaderNode", "Children")
+	if childrenF == nil {
+		c.Undecided(R, "anchor:KeyHeaderNode.Children", "", "not found")
+		return
+	}
+	n := 0
+	for _, fn := range p.Funcs(btabRel) {
+		for _, lp := range naturalLoops(fn) {
+			// the append of Children inside this loop
+			var queue *ssa.BasicBlock
+			for _, b := range fn.Blocks {
+				if !lp.Blocks[b] {
+					continue
+				}
+				for _, in := range b.Instrs {
+					call, ok := in.(*ssa.Call)
+					if !ok || len(call.Call.Args) < 2 {
+						continue
+					}
+					if bi, ok := call.Call.Value.(*ssa.Builtin); !ok || bi.Name() != "append" {
+						continue
+					}
+					if f, _ := loadOfField(call.Call.Args[1]); f == childrenF {
+						queue = b
+					}
+				}
+			}
+			if queue == nil {
+				continue
+			}
+			// innermost loop containing it only
+			inner := true
+			for _, l2 := range naturalLoops(fn) {
+				if l2 != lp && l2.Blocks[queue] && len(l2.Blocks) < len(lp.Blocks) {
+					inner = false
+				}
+			}
+			if !inner {
+				continue
+			}
+			n++
+			start := loopBodyStart(lp)
+			skip := ""
+			seen := map[*ssa.BasicBlock]bool{}
+			work := []*ssa.BasicBlock{start}
+			for len(work) > 0 && skip == "" && start != nil {
+				b := work[len(work)-1]
+				work = work[:len(work)-1]
+				if seen[b] || b == queue || !lp.Blocks[b] {
+					continue
+				}
+				seen[b] = true
+				for _, s := range b.Succs {
+					if s == lp.Header {
+						skip = p.pos(b.Instrs[len(b.Instrs)-1].Pos())
+						if skip == "" {
+							skip = "a continue"
+						}
+					} else {
+						work = append(work, s)
+					}
+				}
+			}
+			c.Check(skip == "", R, fmt.Sprintf("%s:children-queued#%d", fnName(fn), n), p.pos(queue.Instrs[0].Pos()), "every visited header node's children are queued for the next level",
+				"a header node can be passed over without its children being queued for the next level (the iteration reaches the loop head again near "+skip+"): every header cell beneath that node is missing from the text, which then labels fewer columns than the CSV")
+		}
+	}
+	c.Floor(R, "level walks over the header tree", n, 1)
 }
